@@ -116,6 +116,19 @@ fn run_m(t: &[&str]) -> String {
     let nt = threads.min(16);
     let (rret, rout) = if nt == 0 {
         (0, Vec::new())
+    } else if nt == 1 {
+        // with one thread the C function is, by construction, a plain one-call stream compression:
+        // set every parameter (a refused one is skipped), FINISH once, success iff finished
+        let mut e = RustEnc::new(StandardAlloc::default());
+        for (id, v) in &plist {
+            e.set_param(*id, *v);
+        }
+        let (r, _consumed, produced, _tot) = e.stream(2, &data, cap);
+        if r && e.finished() {
+            (1, produced)
+        } else {
+            (0, Vec::new())
+        }
     } else {
         let mut allocs: Vec<_> = (0..nt).map(|_| SendAlloc::new(StandardAlloc::default(), UnionHasher::Uninit)).collect();
         let mut o = vec![0u8; cap];
